@@ -254,8 +254,8 @@ func (c *c20World) checkOne(i int, t c20Tx, recheck bool) (accepted bool, v *cor
 	gotFee := isInsufficientFee(res.Code, res.Codespace)
 	c.r.Step("check", "node%d %s %s gas=%d fee=%s -> code=%d %s", i, mode, t.Desc, t.Gas, t.Fee, res.Code, firstLine(res.Log))
 	if t.Gas != 0 {
-		oog := res.Codespace == "sdk" && res.Code == 11
-		if rejectFee && !gotFee && !oog {
+		// a transaction below the floor must not be admitted; which error rejects it is not the property's business
+		if rejectFee && res.Code == 0 {
 			return false, c.w.fail(mismatch{"fee.floor-not-enforced", "fee-below-floor-admitted", own, fmt.Sprintf("node%d %s admitted (code %d) a tx whose fee is below every positive floor: %s", i, mode, res.Code, why)})
 		}
 		if !rejectFee && gotFee {
@@ -267,7 +267,7 @@ func (c *c20World) checkOne(i int, t c20Tx, recheck bool) (accepted bool, v *cor
 			c.r.Probe("fee.admitted-at-floor")
 		}
 	}
-	if gotFee || res.Code == 11 {
+	if gotFee || res.Code == 11 || (rejectFee && res.Code != 0) {
 		return false, nil
 	}
 	// redundancy filter (only meaningful once the fee stage passed)
@@ -280,7 +280,7 @@ func (c *c20World) checkOne(i int, t c20Tx, recheck bool) (accepted bool, v *cor
 				return false, c.w.fail(mismatch{"redundancy.bad-relay-admitted", "bad-relay-admitted", own, fmt.Sprintf("node%d %s admitted a relay tx with a sequence ahead of the check state / an unauthorised sender: %s", i, mode, t.Desc)})
 			}
 		case fresh == 0:
-			if !redundant {
+			if res.Code == 0 {
 				return false, c.w.fail(mismatch{"redundancy.stale-only-admitted", "stale-only-relay-admitted", own, fmt.Sprintf("node%d %s did not reject a tx made solely of already processed deposits (code %d %s): %s", i, mode, res.Code, firstLine(res.Log), t.Desc)})
 			}
 			c.r.Probe("redundancy.stale-only-rejected")
